@@ -281,37 +281,59 @@ func checkOptionScan(c *Ctx) {
 				}
 			}
 		}
-		res := g.Signature.Results()
-		boolIdx := -1
-		for i := 0; i < res.Len(); i++ {
-			if bt, ok := res.At(i).Type().Underlying().(*types.Basic); ok && bt.Kind() == types.Bool {
-				boolIdx = i
+		// judged where the verdict is built: in every function of the package that constructs a NotSupportedError and runs this
+		// scan (g itself, or a caller that opens it), no inlined path that leaves the scan loop early may return that error
+		bad := ""
+		var roots []*ssa.Function
+		for _, h := range c.P.ModFuncs {
+			if core.FuncPkg(h) != sp.Pkg || len(h.Blocks) == 0 {
+				continue
+			}
+			builds := false
+			for _, hb := range h.Blocks {
+				for _, in := range hb.Instrs {
+					if al, ok := in.(*ssa.Alloc); ok && isNamed(al.Type(), core.ModulePath+"/sack", "NotSupportedError") {
+						builds = true
+					}
+				}
+			}
+			if !builds {
+				continue
+			}
+			if h == g {
+				roots = append(roots, h)
+				continue
+			}
+			for _, hb := range h.Blocks {
+				for _, in := range hb.Instrs {
+					if call, ok := in.(*ssa.Call); ok && call.Common().StaticCallee() == g {
+						roots = append(roots, h)
+					}
+				}
 			}
 		}
-		bad := ""
-		rps, _ := core.ReturnPaths(c.P, g, 5000)
-		for _, rp := range rps {
-			viaEarly := false
-			for i := 0; i+1 < len(rp.Path.Blocks); i++ {
-				if early[[2]*ssa.BasicBlock{rp.Path.Blocks[i], rp.Path.Blocks[i+1]}] {
-					viaEarly = true
+		if len(roots) == 0 {
+			R.Fail("R20.6", gn+"#option-scan", g.Pos(), gn, "no function of the package both runs this scan and builds the NotSupportedError: undecided")
+			continue
+		}
+		for _, root := range roots {
+			for _, ip := range InlinedPaths(c.P, root, inlineOpts{pkg: sp.Pkg, stop: func(h *ssa.Function) bool { return h != g && hasLoop(h) }}) {
+				viaEarly := false
+				for i := 0; i+1 < len(ip.Blocks); i++ {
+					if early[[2]*ssa.BasicBlock{ip.Blocks[i], ip.Blocks[i+1]}] {
+						viaEarly = true
+					}
 				}
-			}
-			if !viaEarly {
-				continue
-			}
-			if boolIdx >= 0 {
-				if !rp.Results[boolIdx].IsConst("true") {
-					bad = fmt.Sprintf("returns %s at %s after leaving the option loop early", rp.Results[boolIdx], c.P.PosStr(rp.Ret.Pos()))
+				if !viaEarly {
+					continue
 				}
-				continue
-			}
-			for _, r := range rp.Results {
-				if r.Has(func(x *core.Term) bool {
-					al, ok := x.Val.(*ssa.Alloc)
-					return ok && x.Op == "alloc" && isNamed(al.Type(), core.ModulePath+"/sack", "NotSupportedError")
-				}) {
-					bad = "reaches the NotSupportedError at " + c.P.PosStr(rp.Ret.Pos()) + " after leaving the option loop early"
+				for _, r := range ip.Results {
+					if r != nil && r.Has(func(x *core.Term) bool {
+						al, ok := x.Val.(*ssa.Alloc)
+						return ok && x.Op == "alloc" && isNamed(al.Type(), core.ModulePath+"/sack", "NotSupportedError")
+					}) {
+						bad = "is left early on a path of " + core.FuncName(root) + " that ends in the NotSupportedError at " + c.P.PosStr(ip.Ret.Pos())
+					}
 				}
 			}
 		}
